@@ -836,6 +836,24 @@ def _returns_count(prog, path, component, seen, depth):
     return True
 
 
+INT_TYS = ("usize", "u64", "u32", "i32", "i64", "isize", "u16", "i16", "u8", "i8", "&usize", "&i32", "&u64", "&i64", "&u32")
+
+
+def int_param_reaches(flows, b, fl, operands):
+    """does an integer-typed parameter of a public function reach one of the operands (data flow, through callers)?"""
+    prog = flows.prog
+    for o in operands:
+        if o.place is None:
+            continue
+        sl = flows.slice(b.path, fl._op_reads(o), up=True, down=False, data_only=True, max_nodes=40000)
+        for (bp, n) in sl:
+            if n[0] in ("L", "SRC") and isinstance(n[1], int):
+                pb = prog.bodies[bp]
+                if pb.kind in ("fn", "assoc_fn") and 1 <= n[1] <= pb.arg_count and pb.local_ty(n[1]) in INT_TYS and pb.item.get("reachable"):
+                    return True
+    return False
+
+
 def rule3(ctx, prog, flows, all_sites, review, handled):
     ctx.rule("R-C20-3", "every arithmetic Assert is a constant-step counter, a sum of lengths, a division by a non-zero constant, a guarded unsigned subtraction, or reviewed")
     groups = {}
@@ -873,6 +891,10 @@ def rule3(ctx, prog, flows, all_sites, review, handled):
                     auto = "sum of two collection lengths"
                 elif op == "Add" and ty in ("usize", "u64") and count_like(b, x) and count_like(b, y):
                     auto = "sum of counts of items that exist in memory (lengths, counters and their sums): cannot reach %s::MAX" % ty
+                elif op == "Add" and ty in ("usize", "u64") and not int_param_reaches(flows, b, fl, [x, y]):
+                    # a 64-bit unsigned addition whose operands are computed from the graph alone (no integer supplied
+                    # by the caller flows in): the sum counts things that were enumerated one by one
+                    auto = "%s addition of values computed from the graph (no caller-supplied integer reaches it): cannot reach %s::MAX by enumeration" % (ty, ty)
                 elif op == "Sub" and ty in ("usize", "u64", "u32") and y.is_const():
                     c = y.const_int()
                     g = comparison_guard(fl, t.bb, dx, c) if c is not None else None
